@@ -18,6 +18,7 @@ TABLE = [
  ("regress/C11/setup-after-end-3436f10.json", "3436f10"),
  ("regress/C18/cancel-on-completed-connection.json", "7123785"),
  ("regress/C01/hello-ok-after-unregister-511ee29.json", "511ee29"),
+ ("regress/C01/connection-arrives-during-cancel.json", "eeb727a"),
  ("regress/C05/stale-attempt-after-graceful-close-7248753.json", "7248753"),
  ("regress/C05/register-misses-incoming-connection-37f73f2.json", "37f73f2"),
  ("regress/C04/closed-during-handler-511ee29.json", "511ee29"),
